@@ -16,6 +16,8 @@ use prog::{gen_history, gen_program_m, gen_program_v, gen_program_vx, gen_progra
 pub struct BuildEngine;
 
 fn cfg_for(config: &str) -> GenCfg {
+  // Suffix `-xl`: the same mix with larger bounds (tasks, resources, steps, script length).
+  if let Some(base) = config.strip_suffix("-xl") { let mut c = cfg_for(base); c.xl = true; return c; }
   let mut c = GenCfg::default();
   match config {
     "td" => {}
@@ -57,6 +59,15 @@ fn cfg_for(config: &str) -> GenCfg {
     "bu-replay-thread" => { c.replays = 0b0100; c.bottom_up = 60; c.all_roots_td = true; c.big = true; }
     "bu-mixed-replay" => { c.replays = 0b1011; c.bottom_up = 50; c.td_between = true; }
     "bu-crash" => { c.crash = true; c.bottom_up = 50; c.all_roots_td = true; }
+    // Bottom-up sessions with a top-down phase before the build, dropped builds and repeated builds (one session).
+    "bu-insession" => { c.bottom_up = 70; c.td_between = true; c.in_session = true; }
+    "bu-insession-allroots" => { c.bottom_up = 70; c.all_roots_td = true; c.in_session = true; }
+    "bu-insession-big" => { c.bottom_up = 80; c.td_between = true; c.in_session = true; c.big = true; }
+    "bu-insession-checkerr" => { c.bottom_up = 70; c.all_roots_td = true; c.in_session = true; c.check_errors = true; }
+    "bu-insession-crash" => { c.bottom_up = 60; c.td_between = true; c.in_session = true; c.crash = true; }
+    "bu-insession-replay" => { c.bottom_up = 70; c.td_between = true; c.in_session = true; c.replays = 0b1011; c.big = true; }
+    "v-bu-insession" => { c.class = Class::V; c.bottom_up = 60; c.td_between = true; c.in_session = true; }
+    "x-any-bu-insession" | "x-hidden-bu-insession" | "x-overlap-bu-insession" | "x-cycle-bu-insession" => { c.class = Class::X; c.bottom_up = 60; c.td_between = true; c.in_session = true; }
     _ => {}
   }
   c
@@ -76,7 +87,7 @@ impl Engine for BuildEngine {
   fn generate(&self, rng: &mut Rng, config: &str, _prop: &str) -> Scenario {
     let cfg = cfg_for(config);
     let program = match cfg.class {
-      Class::X => { let want = match config { c if c.starts_with("x-hidden") => *rng.pick(&[0u64, 0, 1, 1, 4]), c if c.starts_with("x-overlap") => 2, c if c.starts_with("x-cycle") => 3, _ => rng.below(5) }; if rng.chance(25) { gen_program_vx(rng, &cfg, want) } else { gen_program_x(rng, &cfg, want) } }
+      Class::X => { let want = match config.trim_end_matches("-xl") { c if c.starts_with("x-hidden") => *rng.pick(&[0u64, 0, 1, 1, 4]), c if c.starts_with("x-overlap") => 2, c if c.starts_with("x-cycle") => 3, _ => rng.below(5) }; if rng.chance(25) { gen_program_vx(rng, &cfg, want) } else { gen_program_x(rng, &cfg, want) } }
       Class::M => gen_program_m(rng, &cfg),
       Class::V => gen_program_v(rng, &cfg),
       _ => gen_program_w(rng, &cfg),
@@ -140,7 +151,11 @@ impl Engine for BuildEngine {
     // Drop roots.
     for (i, st) in scn.steps.iter().enumerate() {
       if let Step::TopDown { roots } = st { if roots.len() > 1 { for j in 0..roots.len() { let mut s = scn.clone(); if let Step::TopDown { roots } = &mut s.steps[i] { roots.remove(j); } c.push(s); } } }
-      if let Step::BottomUp { then_require, .. } = st { for j in 0..then_require.len() { let mut s = scn.clone(); if let Step::BottomUp { then_require, .. } = &mut s.steps[i] { then_require.remove(j); } c.push(s); } }
+      if let Step::BottomUp { then_require, pre_require, shape, .. } = st {
+        for j in 0..then_require.len() { let mut s = scn.clone(); if let Step::BottomUp { then_require, .. } = &mut s.steps[i] { then_require.remove(j); } c.push(s); }
+        for j in 0..pre_require.len() { let mut s = scn.clone(); if let Step::BottomUp { pre_require, .. } = &mut s.steps[i] { pre_require.remove(j); } c.push(s); }
+        for bit in [1u8, 2] { if shape & bit != 0 { let mut s = scn.clone(); if let Step::BottomUp { shape, .. } = &mut s.steps[i] { *shape &= !bit; } c.push(s); } }
+      }
     }
     // Empty whole tasks (requires of them stay; they become constant tasks).
     for t in 0..scn.program.tasks.len() {
@@ -187,7 +202,7 @@ impl Engine for BuildEngine {
       if nt > 1 {
         let t = nt - 1;
         let used_by_ops = scn.program.tasks.iter().any(|td| refs(&td.ops, t, usize::MAX).0);
-        let used_by_steps = scn.steps.iter().any(|st| match st { Step::TopDown { roots } => roots.contains(&t), Step::BottomUp { then_require, .. } => then_require.contains(&t), _ => false });
+        let used_by_steps = scn.steps.iter().any(|st| match st { Step::TopDown { roots } => roots.contains(&t), Step::BottomUp { then_require, pre_require, .. } => then_require.contains(&t) || pre_require.contains(&t), _ => false });
         if !used_by_ops && !used_by_steps && scn.program.tasks[t].ops.is_empty() {
           let mut s = scn.clone();
           s.program.tasks.pop();
